@@ -860,8 +860,16 @@ impl DomSim {
                 }
             }
             // descendants iterator from the root and from every parentless instance
-            let tops: Vec<Ref> = present.iter().copied().filter(|r| dom.get_by_ref(*r).unwrap().parent().is_none()).collect();
-            for t in tops.into_iter().take(6) {
+            let mut tops: Vec<Ref> = present.iter().copied().filter(|r| dom.get_by_ref(*r).unwrap().parent().is_none()).take(6).collect();
+            // ...and from a few inner instances (first, middle, last of those present).
+            if present.len() > 2 {
+                for pick in [0, present.len() / 2, present.len() - 1] {
+                    if !tops.contains(&present[pick]) {
+                        tops.push(present[pick]);
+                    }
+                }
+            }
+            for t in tops.into_iter() {
                 let reach = real_subtree(dom, t);
                 let reach_set: BTreeSet<u128> = reach.iter().map(|r| ref_key(*r)).collect();
                 let mut yielded: BTreeSet<u128> = BTreeSet::new();
